@@ -36,6 +36,10 @@ func (s *c21) Build(w *World) {
 	// loads are what a task's duration is made of: hold them long in some runs
 	w.Prof.Weights["load"] = []int{1, 3, 10, 40}[t.Draw(4)]
 	w.Prof.Weights["api"] = []int{3, 10, 40}[t.Draw(3)]
+	// buggify: in some runs a worker that has taken a task may be held before it asks for the task data
+	if t.Chance(400) {
+		w.Yields["taskqueue.afterPop"] = true
+	}
 	s.maxIn = 1 + t.Draw(4)
 	s.maxPerPeer = t.Draw(4)
 	s.maxOut = 1 + t.Draw(3)
